@@ -175,8 +175,13 @@ func stdText(v val, gv any) (str, fm string, ext bool) {
 
 // ---------------------------------------------------------------- generator
 
-var nonRootPool = []string{"a", "b", "http.status", "z", "é", "roots", "Root.x", "B", ""}
-var rootPool = []string{"root.svc", "root.a", "root.z", "root."}
+// field names: the usual ones plus names that start with each character of the "root." prefix,
+// names made only of those characters, and names that contain the prefix again
+var nonRootPool = []string{"a", "b", "http.status", "z", "é", "roots", "Root.x", "B", "",
+	"team_id", "route", "r", "to", ".x", "root", "rootx", "oot.x", "request.path"}
+var rootPool = []string{"root.svc", "root.a", "root.z", "root.", "root.service_name",
+	"root.team_id", "root.request.path", "root.route", "root.root", "root.to", "root..x", "root.r",
+	"root.root.x", "root.otter", "root.t", "root.o", "root.root.root.y"}
 
 var valuePool = []val{
 	{"s", ""}, {"s", ""}, {"s", "a"}, {"s", "a"}, {"s", "b"}, {"s", "ab"}, {"s", "a•"}, {"s", "•"}, {"s", ","},
@@ -472,7 +477,7 @@ func genCap(r *kit.Rng) kit.Case {
 	case 1:
 		fields = []string{"b", "a"}
 	case 2:
-		fields = []string{"a", "root.svc", "b"}
+		fields = []string{"a", rootPool[r.Intn(len(rootPool))], "b"}
 	}
 	tl := r.Intn(2)
 	ds := []int{97, 98, 99, 99, 100, 100, 101, 102, 150, 199}
@@ -513,7 +518,11 @@ func genCap(r *kit.Rng) kit.Case {
 	if r.Chance(70) {
 		ri := r.Intn(len(spans))
 		spans[ri].root = true
-		spans[ri].fields = append(spans[ri].fields, fv{"svc", val{"s", "api"}})
+		for _, f := range fields {
+			if strings.HasPrefix(f, config.RootPrefix) {
+				spans[ri].fields = append(spans[ri].fields, fv{baseName(f), val{"s", "api"}})
+			}
+		}
 	}
 	ops := []string{"key " + encTrace(spans)}
 	rev := make([]span, len(spans))
@@ -537,11 +546,11 @@ func genEdge(r *kit.Rng) kit.Case {
 	switch r.Pick(20, 20, 20, 20, 20) {
 	case 0: // no key field at all
 	case 1:
-		fields = []string{"root.svc", "root.a"}
+		fields = []string{rootPool[r.Intn(len(rootPool))], rootPool[r.Intn(len(rootPool))]}
 	case 2:
 		fields = []string{"a", "a", "root.svc", "root.svc"}
 	case 3:
-		fields = []string{"root.", "", "roots"}
+		fields = []string{"root.", "", "roots", "root.root", "root", "root.root.x"}
 	case 4:
 		fields = pickFields(r)
 	}
@@ -577,8 +586,8 @@ func genSeparation(r *kit.Rng, from []val) kit.Case {
 	if r.Chance(40) {
 		fields = append(fields, "b")
 	}
-	if r.Chance(30) {
-		fields = append(fields, "root.svc")
+	if r.Chance(45) {
+		fields = append(fields, rootPool[r.Intn(len(rootPool))])
 	}
 	tl := r.Intn(2)
 	pool := make([]val, 3+r.Intn(4))
